@@ -1274,6 +1274,45 @@ fn main() {
         exec(&mut rep, &mut ctx, &op);
     }
 
+    // `File::at` validation (fan-out monotonic, size fits the object count) and the one inconsistency it cannot
+    // rule out: a 64-bit escape index pointing past the end of the file (accepted; reading that offset panics)
+    {
+        let one = [E { id: [0; 20], offset: 7, crc: 7, content: None }];
+        let z = idhex(&[0; 20]);
+        let mut escape = synth_v2(&one);
+        let k = 1032 + 24;
+        escape[k..k + 4].copy_from_slice(&0x8000_0005u32.to_be_bytes());
+        let mut nonmono = synth_v2(&[]);
+        nonmono[8..12].copy_from_slice(&5u32.to_be_bytes());
+        let mut too_short = synth_v2(&[]);
+        for b in 0..256 {
+            too_short[8 + 4 * b..12 + 4 * b].copy_from_slice(&2u32.to_be_bytes());
+        }
+        let mut trailing = synth_v2(&one);
+        trailing.push(0);
+        let mut v1_long = synth_v1(&one);
+        v1_long.push(0);
+        let mut v1_short = synth_v1(&one);
+        v1_short.pop();
+        let mut max64 = synth_v2(&one);
+        let at = max64.len() - 40;
+        max64.splice(at..at, [0u8; 8]);
+        let mut over64 = max64.clone();
+        over64.splice(at..at, [0u8; 8]);
+        for (name, f) in [
+            ("escape-past-eof", escape),
+            ("fan-not-monotonic", nonmono),
+            ("too-short-for-fan", too_short),
+            ("v2-one-trailing-byte", trailing),
+            ("v1-one-byte-long", v1_long),
+            ("v1-one-byte-short", v1_short),
+            ("v2-max-64bit-table", max64),
+            ("v2-64bit-table-too-long", over64),
+        ] {
+            rep.bucket(&format!("raw:validate:{name}"));
+            exec(&mut rep, &mut ctx, &format!("raw {} | F L{z} P7,{z} O0 O1", hex(&f)));
+        }
+    }
     // multi-pack indices: no objects at all, duplicates across packs with equal and different
     // mtimes, offsets on both sides of the LOFF decision (u32::MAX)
     {
